@@ -78,3 +78,28 @@ pub fn straddles(bytes: usize) -> Vec<String> {
     }
     out
 }
+
+/// Pairs of short words that collide under the 32-bit hash functions people write by hand
+/// (found by birthday search; each of these hashes chains its state, so the pair still collides
+/// with any common prefix-free suffix appended: "<a>-1.0" and "<b>-1.0").  A table, cache or
+/// "seen" set keyed by such a hash instead of the string confuses the two.
+pub const HASH_COLLISIONS: [(&str, &str, &str); 36] = [
+    // pairs sharing their first two characters (a fast-reject on the first characters lets both through)
+    ("lihzfdwiri", "lidvmsdynn", "FNV-1a 32"), ("liquppgwwi", "livthbnkuj", "FNV-1a 32"),
+    ("liatbqhjdc", "licxgqaozf", "FNV-1 32"), ("lirxdirdhl", "lilkoictlk", "FNV-1 32"),
+    ("lieodevtuy", "lixzuovpxa", "djb2"), ("lioewfllbr", "liecdrkxnn", "djb2"),
+    ("litanobzpv", "liabugqowr", "djb2 xor"), ("lidznqtzmk", "lidqgcrkbc", "djb2 xor"),
+    ("lidpumuvht", "liusiqhwxt", "sdbm"), ("lirhnddrgb", "livuxpghzw", "sdbm"),
+    ("liaqybuaiy", "ligjzzorcr", "31-multiplier"), ("lictzsoief", "liwydiqfqz", "31-multiplier"),
+    ("litfklvryk", "livlhcyquw", "CRC-32"), ("licrndmfqo", "likjtucfmb", "CRC-32"),
+    ("liqmcxglvh", "liddjzzkwp", "FNV-1a 64, low 32 bits"), ("lieoqzqezz", "lirofkwmud", "FNV-1a 64, low 32 bits"),
+    ("costarring", "liquid", "FNV-1a 32"), ("declinate", "macallums", "FNV-1a 32"), ("altarage", "zinke", "FNV-1a 32"), ("altarages", "zinkes", "FNV-1a 32"),
+    ("pfagsbywu", "ducxgdlmv", "FNV-1a 32"), ("sowegqmkx", "fvvbonkdx", "FNV-1a 32"),
+    ("zvglittwu", "ufqvxtkdu", "FNV-1 32"), ("bkxizmwmu", "zmphdmfjr", "FNV-1 32"),
+    ("chwusyvpa", "mghhyforf", "djb2"), ("amvrvlpms", "pgrijndgs", "djb2"),
+    ("zfdfanjjs", "gvelryqee", "djb2 xor"), ("tekafktqi", "xdyfrphbq", "djb2 xor"),
+    ("tjhljxtfs", "dmgdlixpt", "sdbm"), ("wlvvnafzm", "vkdjosrom", "sdbm"),
+    ("whgsuhnzy", "ptculfhch", "31-multiplier"), ("vxrvegdmt", "xdwjxboro", "31-multiplier"),
+    ("dhnpgfdsw", "qmqphzuho", "CRC-32"), ("oqummsbea", "slomyiemm", "CRC-32"),
+    ("aufgy", "dctcd", "FNV-1a 64, low 32 bits"), ("aufgx", "dctce", "FNV-1a 64, low 32 bits"),
+];
